@@ -1,7 +1,7 @@
 """C18 Recipients (DESIGN §5 C18) — narrow: a session key is accepted only after its plausibility / integrity check."""
 import re
 from rules.common import (rdom, call_blocks, ok_exit_blocks, site, arm_context, enum_switch_info, edge_variants,
-                          direct_cmp_switches, is_call_to, accept_edge)
+                          direct_cmp_switches, is_call_to, accept_edge, single_defs, resolve_value)
 from core import guard_switches, must_pass, fmt_path, has_origin
 
 EXPLANATION = ("Decides structural clauses of C18, not the behaviour: in PlainSecretParams::decrypt every session key cut out of "
@@ -60,6 +60,18 @@ def plain_decrypt(ctx, P):
                  'a v3 session key with algorithm Plaintext is rejected')
             rdom(ctx, P + ':plain:len-v3', b, [i], [r'call:.*SymmetricKeyAlgorithm::key_size$', r'call:.*len$'],
                  'v3: decrypted length must equal key_size + 3 before slicing')
+            # ... and the comparison is an equality: a `>=` would accept trailing octets after the checksum as a plausible session key
+            defs = single_defs(b)
+            eqg = []
+            for g, _ in guard_switches(b, [i], [r'call:.*SymmetricKeyAlgorithm::key_size$', r'call:.*len$']):
+                k, v = resolve_value(b, b.blocks[g]['t']['o'], defs)
+                if k == 'rv' and v['k'] == 'un':
+                    k, v = resolve_value(b, v['o'][0], defs)
+                if (k == 'rv' and v['k'] == 'bin' and v['op'] in ('Eq', 'Ne')) or (k == 'call' and re.search(r'PartialEq::(eq|ne)$', v['f'].get('fn', ''))):
+                    eqg.append(g)
+            ok, wit = must_pass(b, [i], eqg)
+            ctx.check(P + ':plain:len-v3-exact', 'R-dom', 'v3: the length check is an equality (decrypted octets = algorithm octet + key + 2 checksum octets, nothing more)',
+                      ok and bool(eqg), function=b.path, guards=[site(b, g) for g in eqg])
         if v == 'V6':
             dg = [g for g, op, _ in direct_cmp_switches(b, is_call_to(r'::len$'), lambda c: c == 2)]
             ok, wit = must_pass(b, [i], dg)
